@@ -69,4 +69,8 @@ theorem json_clients (q : Oidc.Handler.RawReq) :
     bodies through `encoding/json`, the HTML page through `html.EscapeString` and the pinned template (`Oidc/Shapes.lean`) -/
 theorem shape_sendErrorResponse_ok : Oidc.Shapes.Shape_sendErrorResponse := by unfold Oidc.Shapes.Shape_sendErrorResponse; rfl
 
+
+/-! ## Program text of the helpers these theorems also rest on (constructors, accessors, token endpoint, configuration) -/
+theorem text_handleError_ok : Oidc.Shapes.Text_handleError := by unfold Oidc.Shapes.Text_handleError; rfl
+
 end Oidc.Props.C16
